@@ -29,7 +29,7 @@ impl Typescript {
         &self,
         tld: ToplevelTypeDefinition,
     ) -> Result<String, GeneratorError> {
-        if let ASN1Type::Integer(_) = tld.ty {
+        if let ASN1Type::Integer(_) | ASN1Type::Real(_) = tld.ty {
             Ok(number_like_template(
                 &format_comments(&tld.comments),
                 &to_jer_identifier(&tld.name),
